@@ -46,12 +46,23 @@ def main():
     nb_aborted = [r for r in nbrecs if "abort" in (r["nb"].get("kind"), r["py"].get("kind"))]
     if nb_aborted:
         raise RuntimeError(f"T5: {len(nb_aborted)} program points aborted on symbolic values, e.g. {json.dumps(nb_aborted[0])[:600]}")
+    # T6: the NumPy backend on object-dtype arrays of symbolic values (own process: it re-wires both backends' lib)
+    npapi = os.path.join(build, "npapi.json")
+    p6 = subprocess.run([sys.executable, "-m", "tools.vtrace.t6run", npapi], cwd=ROOT, capture_output=True, text=True, timeout=900)
+    if p6.returncode != 0:
+        print(p6.stdout[-2000:], p6.stderr[-4000:])
+        raise RuntimeError("T6 (NumPy backend symbolic execution) failed")
+    t6stats = json.loads(p6.stdout.strip().splitlines()[-1])
+    nprecs = json.load(open(npapi))
+    np_bad = [r for r in nprecs if r["np"].get("kind") in ("abort", "other") or r["py"].get("kind") in ("abort", "other")]
+    if np_bad:
+        raise RuntimeError(f"T6: {len(np_bad)} program points could not be described symbolically, e.g. {json.dumps(np_bad[0])[:600]}")
     from tools.vtrace import emit_nb
-    api_v, names_v, bin_v, more = emit_obj.emit(recs, ir, extra=lambda simp: emit_nb.emit(nbrecs, simp))
+    api_v, names_v, bin_v, more = emit_obj.emit(recs, ir, extra=lambda simp: dict(emit_nb.emit(nbrecs, simp), **emit_nb.emit_np(nprecs, simp)))
     for fn, txt in more.items():
         ch.append(emit.write_if_changed(os.path.join(gen, fn), txt))
     import glob
-    for stale in glob.glob(os.path.join(gen, "NbApi_*.v")):
+    for stale in glob.glob(os.path.join(gen, "NbApi_*.v")) + glob.glob(os.path.join(gen, "NpApi_*.v")):
         if os.path.basename(stale) not in more:
             for ext in ("", "o", "ok", "os"):
                 if os.path.exists(stale + ext):
@@ -74,7 +85,7 @@ def main():
         sys.exit(4)
     print(json.dumps({"t1_validation_evaluations": val["evaluations"], "strata": val["strata"]}))
     print(json.dumps({"functions": len(ir["functions"]), "entries": sum(len(t["entries"]) for t in ir["tables"].values()),
-                      "audited": ir["audited"], "t3_records": t3counts, "t5": t5stats, "changed": ch, "wall_s": round(time.time() - t0, 2)}))
+                      "audited": ir["audited"], "t3_records": t3counts, "t5": t5stats, "t6": t6stats, "changed": ch, "wall_s": round(time.time() - t0, 2)}))
 
 
 if __name__ == "__main__":
